@@ -60,7 +60,7 @@ func TestC04_Filters(t *testing.T) {
 		db := gen.Load(t, cmds)
 		q, qc := gen.Query(t, cmds, []gen.QueryClass{"vocab", "vocab", "nlp", "typo", "typo", "fragment", "fragment", "one", "mixed"})
 		opt := gen.Options(t, gen.OptSpec{N: len(cmds), NoNegLimit: true})
-		path := rapid.SampledFrom([]string{"universal", "universal", "cached", "monitored", "legacy-pipeline"}).Draw(t, "path")
+		path := rapid.SampledFrom([]string{"universal", "universal", "cached", "cached-delta", "cached-delta", "monitored", "legacy-pipeline"}).Draw(t, "path")
 		var res []database.SearchResult
 		switch path {
 		case "universal":
@@ -68,6 +68,24 @@ func TestC04_Filters(t *testing.T) {
 		case "cached":
 			c := database.NewCachedDatabase(db)
 			c.SearchWithOptionsAndCache(q, opt)
+			res = c.SearchWithOptionsAndCache(q, opt)
+		case "cached-delta":
+			// warm the cache with the same query under other filter settings first
+			c := database.NewMonitoredDatabase(db)
+			for i := rapid.IntRange(1, 3).Draw(t, "warmups"); i > 0; i-- {
+				w := opt
+				w.AllPlatforms = rapid.Bool().Draw(t, "w-all")
+				w.NoCrossPlatform = rapid.Bool().Draw(t, "w-nocross")
+				w.PipelineOnly = rapid.Bool().Draw(t, "w-ponly")
+				if rapid.Bool().Draw(t, "w-platforms") {
+					w.Platforms = rapid.SliceOfN(rapid.SampledFrom([]string{"linux", "windows", "macos", "darwin"}), 0, 2).Draw(t, "w-pl")
+				}
+				if rapid.Bool().Draw(t, "w-monitored") {
+					c.SearchWithOptionsAndMonitoring(q, w)
+				} else {
+					c.SearchWithOptionsAndCache(q, w)
+				}
+			}
 			res = c.SearchWithOptionsAndCache(q, opt)
 		case "monitored":
 			m := database.NewMonitoredDatabase(db)
